@@ -4,7 +4,7 @@
 set -u
 export GOFLAGS=-mod=mod GOPROXY=off GOSUMDB=off GOTOOLCHAIN=local
 ID=$1; K=$2; shift 2
-WT=/tmp/mut-$ID; M=$WT/MUTATION/$K
+WT=/tmp/mut-$ID; M=/tmp/mutout-$ID/$K; [ -d $M ] || M=$WT/MUTATION/$K
 DEST=/verif/seeded/$ID-$K
 mkdir -p $DEST
 cp $M/patch.diff $DEST/; cp $M/meta.json $DEST/ 2>/dev/null; cp $M/*_test.go $DEST/ 2>/dev/null; cp $M/*.go $DEST/ 2>/dev/null
